@@ -177,6 +177,7 @@ func bindResults(env *CEnv, callee *ssa.Function, res []Value) {
 
 func (x *Exec) callContract(st *State, fr *Frame, in ssa.Instruction, callee *ssa.Function, spec *FuncSpec, args []Value, k cont) {
 	name := shortKey(funcKey(callee))
+	x.callees[spec.Key] = true
 	env := x.callEnv(st, callee, args)
 	def := spec.Behaviors[0]
 	// preconditions
